@@ -23,15 +23,20 @@ def norm(t):
         return t
     if t[0] == "ref" and t[1][0] == "P":
         return norm(t[1][1])
-    if t[0] in ("fn", "call") and len(t) > 3 and t[0] == "call":
+    if t[0] == "call" and len(t) > 3:
+        if (t[2] or "").endswith("<impl str>::as_bytes") and t[3]:
+            return norm(t[3][0])        # a str and its bytes are the same bytes
         return (t[0], t[1], t[2], tuple(norm(x) for x in t[3])) + t[4:]
     if t[0] in ("c", "param", "str", "bytes", "fn"):
         return t
     return tuple(norm(x) if isinstance(x, tuple) else x for x in t)
 
 
-def residual_calls(path):
-    return [e for e in path.events if e["k"] == "call" and not e.get("modelled") and not e.get("inlined")]
+def residual_calls(path, views=True):
+    out = [e for e in path.events if e["k"] == "call" and not e.get("modelled") and not e.get("inlined")]
+    if not views:
+        out = [e for e in out if not (e["key"] or "").endswith("<impl str>::as_bytes")]
+    return out
 
 
 def event_by_id(path, cid):
